@@ -357,6 +357,8 @@ def _format(fmt, args):
             out.extend(SymStr.lift(render_int(a, w, '0' in flags)).cells)
         elif conv == 'd' and isinstance(a, SymFloat):
             out.extend(SymStr.lift(render_int(a.__trunc__(), w, '0' in flags)).cells)
+        elif conv == 'f' and hasattr(a, '_sx_format_fixed'):
+            out.extend(SymStr.lift(a._sx_format_fixed(int(prec) if prec is not None else 6, w, '0' in flags)).cells)
         elif conv == 'f' and isinstance(a, (SymFloat, SymInt)):
             from . import dtoa
             out.extend(SymStr.lift(dtoa.format_fixed(conv_float(a), int(prec) if prec is not None else 6, w, '0' in flags)).cells)
